@@ -172,7 +172,8 @@ def wFlags (c : WCtx) (idx : List Nat) : List (Name × Ty) → BState → R BSta
         match v.asInt? with
         | none => throw .typeE
         | some i =>
-          if i < 0 then pure (v, { b with negative := true })
+          -- `if not 0 <= val < (1 << atts): raise OverflowError` (fix 7d1e5ea)
+          if i < 0 ∨ i ≥ (2 ^ atts : Nat) then throw .overflowE
           else pure (v, { b with bitfield := b.bitfield ||| (i.toNat <<< b.bfoffset) }) : R (PyVal × BState))
     let env' ← (if nameLen key ≥ 8 && nameTake key 8 = nmReserved then pure b1.env
                 else setAttr c b1.env keyr val)
